@@ -50,6 +50,12 @@ def structural(res, stats, case, verdict):
                       example={"source": rec["source"], "output": nm, "eliminated": src})
             stats["finding:F29"] += 1
             continue
+        if prod is None and not anchors and ir.get(src, {}).get("kind") == "IRWireMerge" and \
+                any(isinstance(r2, dict) and r2.get("src") == src for k2, r2 in names.items() if k2 != nm):
+            res.known("F34", "an unconsumed alias of a wire-merged bundle that is consumed under its first name has no anchor",
+                      example={"source": rec["source"], "output": nm, "merge": src})
+            stats["finding:F34"] += 1
+            continue
         if prod is None:
             # the value has no entity of its own (wire merge / selection): the anchor alone exposes it
             if len(anchors) != 1:
